@@ -707,6 +707,15 @@ def type_fault_matrix():
         out += ["(vector-ref %s 0)" % bad, "(vector-length %s)" % bad, "(vector-set! %s 0 1)" % bad, "(apply vector-ref (list %s 0))" % bad]
     for bad in ("'a", "1/2", '"s"', "1.5"):
         out += ["(vector-ref (vector 1 2) %s)" % bad, "(vector-set! (vector 1 2) %s 0)" % bad]
+    # the LAST argument of apply must be a list - whatever is applied: a native procedure, a user procedure with fixed parameters,
+    # with a rest parameter only, with fixed and rest parameters covered or not by the leading arguments, a library procedure
+    for bad in ("5", "'a", "#t", '"s"', "(vector 1)"):
+        for target, lead in (("+", ""), ("+", "1 "), ("list", ""), ("list", "1 2 "), ("(lambda r r)", ""), ("(lambda r r)", "1 "),
+                             ("(lambda (a . r) a)", "1 "), ("(lambda (a . r) r)", "1 2 "), ("(lambda (a b) a)", "1 "), ("car", ""), ("vector", "0 ")):
+            out.append("(apply %s %s%s)" % (target, lead, bad))
+            out.append("((lambda () (apply %s %s%s)))" % (target, lead, bad))
+        out.append("(map (lambda (q) (apply list q)) (list %s))" % bad)
+        out.append("(apply apply (list list %s))" % bad)
     return out
 
 
@@ -771,7 +780,8 @@ def inject_fault(rng, gen, forms):
         fault = type_fault(rng)
     else:
         fault = rng.choice(FAULTS[kind])
-    ctx = rng.choice(["direct", "tail", "apply", "library", "operand", "nested-tail", "body-non-last", "set-value", "operand-before-effect"])
+    ctx = rng.choice(["direct", "tail", "apply", "library", "operand", "nested-tail", "body-non-last", "set-value", "operand-before-effect",
+                      "whole-expansion"])
     if ctx == "direct":
         form = fault
     elif ctx == "tail":
@@ -793,6 +803,11 @@ def inject_fault(rng, gen, forms):
         # (effect-zz is defined by the programs that probe it; elsewhere the assignment simply must not be reached)
         form = rng.choice(["(list 0 %s (set! effect-zz 1))", "((lambda (a b c) a) 0 %s (set! effect-zz 2))",
                            "(+ 1 %s (begin (set! effect-zz 3) 1))", "(vector %s (set! effect-zz 4) (set! effect-zz 5))"]) % fault
+    elif ctx == "whole-expansion":
+        # the faulty form is the WHOLE EXPANSION of a macro use (the last operand of and / or, a test-only cond clause, the only body
+        # form of begin / when): it is the user's own form, with its own kind and position, not the macro use's
+        form = rng.choice(["(and #t %s)", "(or #f %s)", "(and 1 (car '(1)) %s)", "(cond (#f 0) (%s))", "(begin %s)", "(list 1 (or #f #f %s))",
+                           "(if #t (and #t\n   %s) 0)".replace("\\n", " ")]) % fault
     elif ctx == "library":
         form = "(map (lambda (t) %s) '(1 2))" % fault
     else:
